@@ -8,115 +8,13 @@
   later pass brings that distance closer, and `corr_prefix` (Lemmas/NearAlign) identifies the source item
   of the near `jal` with that of the far pair.
 -/
-import BB.Lemmas.SuccMain2
+import BB.Lemmas.SuccTwoRun2
 import BB.Props.C12Program
 namespace BB.Props.C12
 open BB BB.Spec BB.Lemmas
 open BB.Props.C03 (Land Stage)
 open BB.Props.C04 (aliased_fixed)
 open BB.Props.C20 (GrowHyps)
-
-/-- the two runs as ghost lists, with the lists and walks around the two pseudo-instruction passes exposed -/
-theorem two_run_ghost2 (H : Hooks) (items : List Item) (hyp : GrowHyps H items) (constants : Dict)
-    {items1 items2 : List Item} {labels2 : Dict}
-    {a4 a7 : List Item} {la4 la7 : Dict}                 -- run 0
-    {b3 b4 b6 b7 : List Item} {lb3 lb4 lb6 lb7 : Dict}   -- run 1
-    (h1 : resolveConstants H items [] = .ok (items1, constants))
-    (h2 : resolveLabels items1 [] = .ok (items2, labels2))
-    (ha4 : transformPseudo H (resolveRegisterAliases items2 constants) constants labels2 = .ok (a4, la4))
-    (ha7 : resolveAligns (resolveRegisterAliases a4 constants) la4 = .ok (a7, la7))
-    (hb3 : maybeCompress H true (resolveRegisterAliases items2 constants) constants labels2 = .ok (b3, lb3))
-    (hb4 : transformPseudo H b3 constants lb3 = .ok (b4, lb4))
-    (hb6 : maybeCompress H true (resolveRegisterAliases b4 constants) constants lb4 = .ok (b6, lb6))
-    (hb7 : resolveAligns b6 lb6 = .ok (b7, lb7)) :
-    ∃ B3 A4 B4 B6 : List Item,
-      IWd H constants (resolveRegisterAliases items1 constants) B3 ∧
-      walk (pseudoBody H constants) B3 0 lb3 = .ok (B4, lb4) ∧ Corr H constants A4 B4 ∧
-      IWd H constants (resolveRegisterAliases B4 constants) B6 ∧
-      walk alignBody B6 0 lb6 = .ok (alignImg B6 0, lb7) ∧
-      NonNeg B3 ∧ (labelNames B3).Nodup ∧ labelNames B3 = labelNames items ∧
-      (∀ ℓ v, labelPos B3 0 ℓ = some v → lb3.get ℓ = some v) ∧ (∀ ℓ v, ℓ ∉ labelNames B3 → lb3.get ℓ = some v → v ≤ 0) ∧
-      sizeSum B3 ≤ sizeSum items ∧
-      walk (pseudoBody H constants) (resolveRegisterAliases items1 constants) 0 labels2 = .ok (A4, la4) ∧
-      Corr H constants (resolveRegisterAliases A4 constants) B6 ∧
-      strip (alignImg (resolveRegisterAliases A4 constants) 0) = a7 ∧ strip (alignImg B6 0) = b7 ∧
-      NonNeg (resolveRegisterAliases A4 constants) ∧ NonNeg B6 ∧
-      (labelNames B6).Nodup ∧ labelNames B6 = labelNames items ∧
-      (∀ ℓ u, labelPos (alignImg (resolveRegisterAliases A4 constants) 0) 0 ℓ = some u → la7.get ℓ = some u) ∧
-      (∀ ℓ u, labelPos (alignImg B6 0) 0 ℓ = some u → lb7.get ℓ = some u) ∧
-      Blocks items B6 := by
-  simp only [maybeCompress, if_true, transformCompressible] at hb3 hb6
-  unfold transformPseudo at ha4 hb4
-  unfold resolveAligns at ha7 hb7
-  obtain ⟨c1, c2, c3⟩ := BB.Props.C03.resolveConstants_spec H items [] items1 constants h1
-  obtain ⟨l1, l2, _, l4, l5⟩ := resolveLabelsAux_spec items1 0 [] [] items2 labels2 h2
-  have st0 : Stage items1 items2 labels2 (labelNames items) := by
-    refine ⟨l1.symm, c2 hyp.nonneg, l2, c1, l4, ?_⟩
-    intro ℓ v hℓ hv
-    rw [l5 ℓ hℓ] at hv
-    simp [Dict.get, List.lookup] at hv
-  have hnone2 : ∀ ℓ, ℓ ∉ labelNames items → labels2.get ℓ = none := by
-    intro ℓ hℓ
-    rw [l5 ℓ (by rw [c1]; exact hℓ)]
-    simp [Dict.get, List.lookup]
-  have st1 := BB.Props.C03.stage_aliases st0 constants
-  obtain ⟨B3, wb3, sb3, _⟩ := stage_walk'' (compressBody_ok H constants) st1 hb3
-  have hiw3 := walk_compress_IWd H constants _ 0 labels2 B3 lb3 wb3
-  obtain ⟨A4, wa4, sa4, _⟩ := stage_walk'' (pseudoBody_ok H constants) st1 ha4
-  obtain ⟨B4, wb4, sb4, _⟩ := stage_walk'' (pseudoBody_ok H constants) sb3 hb4
-  have hsz : sizeSum (resolveRegisterAliases items1 constants) = sizeSum items := by
-    rw [sizeSum_aliases, resolveConstants_sizeSum H items [] items1 constants h1]
-  have hpseudo_mem : ∀ line name args, Item.pseudo line name args ∈ resolveRegisterAliases items1 constants →
-      Item.pseudo line name args ∈ items := by
-    intro line name args hm
-    exact c3 _ (mem_aliases_other (by intro l i e; cases e) hm)
-  have hcorr4 : Corr H constants A4 B4 := by
-    refine pseudo_lockstep_corr H constants hyp.offset (sizeSum items) hyp.small hiw3 0 0 labels2 lb3 A4 B4 la4 lb4
-      st1.nonneg st1.nodup ⟨st1.agree, st1.low⟩ ⟨sb3.agree, sb3.low⟩ ?_ (Int.le_refl _) (by rw [hsz]; omega) ?_ ?_ ?_ wa4 wb4
-    · intro ℓ hℓ u0 hu0
-      rw [aliases_labelNames, c1] at hℓ
-      rw [hnone2 ℓ hℓ] at hu0
-      cases hu0
-    · intro line name args hm hk imm hpi
-      exact hyp.li items1 constants h1 line name args (hpseudo_mem line name args hm) hk imm hpi
-    · intro line name args ref hm hk ha
-      exact hyp.calls items1 constants h1 line name args ref (hpseudo_mem line name args hm) hk ha
-    · intro l i hm; exact aliased_fixed hm
-  have hcorr5 := hcorr4.aliases
-  have sa5 := BB.Props.C03.stage_aliases sa4 constants
-  have sb5 := BB.Props.C03.stage_aliases sb4 constants
-  obtain ⟨B6, wb6, sb6, _⟩ := stage_walk'' (compressBody_ok H constants) sb5 hb6
-  have hcorr6 : Corr H constants (resolveRegisterAliases A4 constants) B6 :=
-    hcorr5.then_iwd (fun l i hm => aliased_fixed hm) (walk_compress_IWd H constants _ 0 lb4 B6 lb6 wb6)
-  obtain ⟨A7, wa7, sa7, _⟩ := stage_walk'' alignBody_ok sa5 ha7
-  obtain ⟨B7, wb7, sb7, _⟩ := stage_walk'' alignBody_ok sb6 hb7
-  have eA7 := walk_alignImg _ 0 la4 A7 la7 wa7
-  have eB7 := walk_alignImg _ 0 lb6 B7 lb7 wb7
-  subst eA7 eB7
-  have hszB3 : sizeSum B3 ≤ sizeSum items := by
-    have := hiw3.toIW.sizeSum_le
-    omega
-  -- blocks
-  have hblocks : Blocks items B6 := by
-    have k1 := resolveConstants_blocks H items [] items1 constants h1
-    have k2 := k1.trans (aliases_blocks constants items1)
-    have k3 := k2.trans (walk_blocks _ (fun it _ => compressBody_blk H constants it) 0 labels2 B3 lb3 wb3)
-    have hps : ∀ it ∈ B3, ∀ p L repl n, (∀ line nm, it ≠ .label line nm) →
-        pseudoBody H constants it p L = .ok (repl, n) → Blk it repl := by
-      intro it hit p L repl n hnl hb
-      refine pseudoBody_blk H constants hyp.offset it p L repl n hnl (sb3.nonneg it hit) ?_ hb
-      intro line name args e hk imm hpi
-      subst e
-      have hm1 := walk_mem_back (P := IsPseudo) (compressBody_no_new H constants (by rintro l i ⟨_, _, _, e⟩; cases e))
-        _ 0 labels2 B3 lb3 wb3 _ hit ⟨line, name, args, rfl⟩
-      exact hyp.li items1 constants h1 line name args (hpseudo_mem line name args hm1) hk imm hpi
-    have k4 := k3.trans (walk_blocks _ hps 0 lb3 B4 lb4 wb4)
-    have k5 := k4.trans (aliases_blocks constants B4)
-    exact k5.trans (walk_blocks _ (fun it _ => compressBody_blk H constants it) 0 lb4 B6 lb6 wb6)
-  exact ⟨B3, A4, B4, B6, hiw3, wb4, hcorr4, walk_compress_IWd H constants _ 0 lb4 B6 lb6 wb6, wb7,
-    sb3.nonneg, sb3.nodup, sb3.names_eq, sb3.agree, sb3.low, hszB3, wa4, hcorr6, sa7.strip_eq, sb7.strip_eq, sa5.nonneg, sb6.nonneg, sb6.nodup, sb6.names_eq,
-    sa7.agree, sb7.agree, hblocks⟩
-
 
 theorem spanA_source {H : Hooks} {constants : Dict} {items : List Item}
     (hsrc : ∀ x ∈ items, SrcOK H constants (labelNames items) x) (haf : AlignFreeTransfers items) : SpanA items := by
